@@ -268,12 +268,16 @@ def w_shape_copies(idx):
             w3 = World.build(t["from"])
             w3.n(1).add_namespace(None, "urn:default")
             w3.n(1).add_namespace("x", "urn:x")
+            for j, x in enumerate(w3.nodes):           # ... and layout-like texts: whitespace-only tails and contents are texts like any other
+                x.tail = [" ", "\n    ", "\t", "\u00a0", "", None, "t"][(i + j) % 7]
+                x.content = ["\n", " ", None, "", "c"][(i + 2 * j) % 5]
             nb = len(w3.nodes)
             ok, ret, exc = w3.apply("copy", op["args"])
             if not ok:
                 out.append((opkey(op, "raised:default-namespace", exc), repr(exc), replay))
             else:
                 got = w3.pi(("name", "kids", "ns"))
+                texts = [(x.tail, x.content) for x in w3.nodes]
                 kids = t["from"]["kids"]
 
                 def pre(k):
@@ -282,6 +286,8 @@ def w_shape_copies(idx):
                 if canon(got, ("name", "kids")) != canon(t["to"], ("name", "kids")) or \
                         [got["ns"][k - 1] for k in src] != [got["ns"][j] for j in range(nb, len(w3.nodes))]:
                     out.append(("copy:not-equal:default-namespace", f"source ns {[got['ns'][k - 1] for k in src]} copy ns {got['ns'][nb:]}", replay))
+                if [texts[k - 1] for k in src] != texts[nb:]:
+                    out.append(("copy:not-equal:whitespace-texts", f"source (tail, content) {[texts[k - 1] for k in src]} copy {texts[nb:]}", replay))
             n += 1
     return n, out
 
